@@ -797,12 +797,12 @@ func (p *printer) expr1(expr ast.Expr, prec1, depth int) {
 			// parenthesis needed
 			p.print(token.LPAREN)
 			p.print(token.MUL)
-			p.expr(x.X)
+			p.expr1(x.X, prec, depth)
 			p.print(token.RPAREN)
 		} else {
 			// no parenthesis needed
 			p.print(token.MUL)
-			p.expr(x.X)
+			p.expr1(x.X, prec, depth)
 		}
 
 	case *ast.UnaryExpr:
@@ -1074,13 +1074,29 @@ func (p *printer) expr1(expr ast.Expr, prec1, depth int) {
 			p.print(token.RBRACE)
 		}
 	case *ast.ErrWrapExpr:
-		p.expr(x.X)
+		// x! x? x?:d are postfix forms: the operand is a primary expression, the default a
+		// unary one, and x?:d itself is not a primary expression.
+		paren := x.Default != nil && prec1 > token.UnaryPrec
+		if paren {
+			p.print(token.LPAREN)
+		}
+		p.expr1(x.X, token.HighestPrec, depth)
 		p.print(x.Tok)
 		if x.Default != nil {
 			p.print(token.COLON)
-			p.expr(x.Default)
+			p.expr1(x.Default, token.UnaryPrec, depth)
+		}
+		if paren {
+			p.print(token.RPAREN)
 		}
 	case *ast.LambdaExpr:
+		if prec1 > token.LowestPrec {
+			// a lambda extends as far to the right as possible: as an operand it needs parentheses
+			p.print(token.LPAREN)
+			p.expr1(x, token.LowestPrec, depth)
+			p.print(token.RPAREN)
+			break
+		}
 		if x.LhsHasParen {
 			p.print(token.LPAREN)
 			p.identList(x.Lhs, false)
@@ -1099,6 +1115,12 @@ func (p *printer) expr1(expr ast.Expr, prec1, depth int) {
 		}
 
 	case *ast.LambdaExpr2:
+		if prec1 > token.LowestPrec {
+			p.print(token.LPAREN)
+			p.expr1(x, token.LowestPrec, depth)
+			p.print(token.RPAREN)
+			break
+		}
 		if x.LhsHasParen {
 			p.print(token.LPAREN)
 			p.identList(x.Lhs, false)
